@@ -510,6 +510,8 @@ def reject_key(o, clause, row, forms, names):
     b = o["b"]
     if clause == "longer-than-15":
         return "class:instruction-longer-than-15-bytes"
+    if clause == "segment-prefix" and row["pk"] in ("V", "E", "X"):
+        return f"class:segment-prefix:{ {'V': 'vex', 'E': 'evex', 'X': 'xop'}[row['pk']] }-memory-form:m{o['m']}"      # one prefix path serves every VEX / EVEX / XOP memory form
     if clause in ("label-memory-displacement", "label-memory-form"):
         return f"class:{clause}:m{o['m']}"          # [label + off] operands: one root cause spans every instruction with a memory operand
     if clause == "modrm-rm-fixed" and row["rmfix"] == 4:
@@ -639,6 +641,34 @@ def run_sweep(ctx, bdir, tier):
     return outs
 
 
+SEG_PFX = {1: 0x26, 2: 0x2E, 3: 0x36, 4: 0x3E, 5: 0x64, 6: 0x65}
+LEGACY_PFX = (0x66, 0x67, 0xF0, 0xF2, 0xF3, 0x26, 0x2E, 0x36, 0x3E, 0x64, 0x65)
+
+
+def segment_byte_level(o):
+    """A requested segment override that equals the default segment of the address is printed by no decoder, with or without the prefix
+    byte, so the decoder text can neither corroborate nor refute 'the override is not encoded'.  Byte-level corroboration with the decoders'
+    own prefix handling: the prefix byte is absent from the leading prefixes, and with the byte inserted llvm-mc reads the same instruction
+    (same text apart from a printed segment) consuming exactly one byte more.  Returns (corroborated, explanation)."""
+    b = o["b"]
+    j = 0
+    while j < len(b) and b[j] in LEGACY_PFX: j += 1
+    want = {SEG_PFX[x["sg"]] for x in o["ops"] if x["t"] == "m" and x["sg"]}
+    missing = sorted(want - set(b[:j]))
+    if not missing: return False, ""
+    res = llvm_batch([(o["m"], b), (o["m"], missing + list(b))])
+    def norm(r):
+        texts, invalid, sled = r
+        if invalid or sled != 24: return None
+        lines = [re.sub(r"#.*$", "", t).strip().lower() for t in texts]
+        lines = [re.sub(r"\b[cdefgs]s:\s*", "", l) for l in lines if l and not re.fullmatch(r"[cdefgs]s", l)]
+        return lines
+    n1, n2 = norm(res[0]), norm(res[1])
+    if n1 is not None and n1 == n2:
+        return True, "prefix byte %s absent; with it inserted llvm-mc reads the same instruction from one byte more" % " ".join("%02X" % x for x in missing)
+    return False, "prefix byte absent but the decoder does not read the extended bytes as the same instruction"
+
+
 def judge(ctx, forms, names, rej, what):
     """group, corroborate with the disassemblers, report"""
     groups = collections.OrderedDict()
@@ -663,6 +693,11 @@ def judge(ctx, forms, names, rej, what):
                 dis, agree = True, False            # implicit operand address size: the decoders print no operand; the missing 67 is the evidence
             if clause == "longer-than-15" and len(o["b"]) > 15:
                 dis, agree = True, False            # SDM vol.2 2.3.11 / vol.3: an instruction longer than 15 bytes is #GP; the decoders do not enforce the limit
+            if clause == "segment-prefix":
+                ok, why = segment_byte_level(o)
+                if ok:
+                    dis, agree = True, False        # the requested override is not encoded (decoders print no default segment either way)
+                    v1 = v1 + " [" + why + "]"
             if clause == "option-rex" and agree:
                 dis, agree = True, False            # forced REX missing: decoders read the same instruction, the option had no effect
             (corroborated if dis and not agree else contradicted).append((o, clause, row, v1, v2, texts))
@@ -674,6 +709,12 @@ def judge(ctx, forms, names, rej, what):
         vlib.write_ndjson(rp, [o for o, _, _ in items[:40]])
         summary[key] = {"observations": len(items), "instructions": len({o["n"] for o, _, _ in items}),
                         "corroborated": len(corroborated), "sampled": len(sample)}
+        if not corroborated and all(c[1] == "segment-prefix" and not re.search(r"\b[cdefgs]s:", " ".join(c[5]).lower()) for c in contradicted):
+            # the decoders print no segment at all for these bytes: a decoder limitation, neither corroboration nor refutation -> information only
+            o, clause, row, v1, v2, texts = contradicted[0]
+            ctx.extra.setdefault("uncorroborable_rejections", {})[key] = {"observations": len(items), "example": describe(o), "why": "decoders print no segment for this address form"}
+            ctx.log(f"uncorroborable rejection class {key} ({len(items)} observations): judged by the spec alone, reported as information")
+            continue
         if not corroborated:
             o, clause, row, v1, v2, texts = contradicted[0]
             if os.environ.get("C01_DEV"):
